@@ -53,6 +53,7 @@ def run(ctx: Context) -> None:
     )
     ctx.rule("C03a", "with shots given, every branch frequency is a Fraction built from integers (Fraction(int, shots), products and sums of such); budgets and counts are int(Fraction * shots)")
     ctx.rule("C03b", "steps reachable with shots=None never use shots numerically without a dominating None test")
+    ctx.rule("C03d", "every branch state handed on in a `shots is None` arm is the normalised projection (constructor with a normalization argument, or normalize() on the way), so that the weights read from it by the next measurement are conditional and the simulator's chain rule holds")
     ctx.rule("C03c", "in every `shots is None` arm the weights handed on are the probabilities themselves (times the parent branch's weight): no rescaling, no renormalisation")
     ex = Exactness(idx, res)
     roots = _roots(reg, res)
@@ -174,6 +175,7 @@ def run(ctx: Context) -> None:
     # ---- (b) ----------------------------------------------------------------------------------------------
     shotsmod.check_shots_none(ctx, idx, reg, "C03b")
     clause_c(ctx, idx)
+    clause_d(ctx, idx)
     ctx.assume("Branch.frequency of incoming branches is an exact Fraction when shots is given (the invariant this rule re-establishes at every construction site)")
 
 
@@ -293,3 +295,106 @@ def clause_c(ctx: Context, idx) -> None:
                                       f"joint distribution of successive measurements is not the product of the conditionals", norm(w)[:90])
     ctx.require_floor("`shots is None` arms that build weights from a probability map", n_arms, 3)
     ctx.require_floor("weights built in `shots is None` arms", n_weights, 4)
+
+
+def clause_d(ctx: Context, idx) -> None:
+    """ "every branch state is the normalised projection of the pre-measurement state": the simulator multiplies the weight of a
+    child branch by the weight of its parent (`subbranch.frequency *= branch.frequency`), which is the chain rule only if the
+    weights a step reads from its input state are conditional on that state, i.e. if the state handed on by the previous
+    measurement is normalised.  In every `shots is None` arm, a branch state that is not None must come from a constructor that
+    receives a `normalization` (computed from the outcome's probability) or is normalised before it is handed on."""
+    n = 0
+
+    def normalising(fn_: FuncInfo, call: ast.Call, depth: int = 0) -> Optional[bool]:
+        if any(k.arg == "normalization" for k in call.keywords):
+            return True
+        name = dotted(call.func) or ""
+        last = name.split(".")[-1]
+        target = None
+        if isinstance(call.func, ast.Name):
+            r = idx.resolve_name(fn_.module, call.func.id)
+            if isinstance(r, FuncInfo):
+                target = r
+        elif isinstance(call.func, ast.Attribute):
+            # method of some state class: look it up by name among the state classes
+            for c in idx.all_classes():
+                if last in c.methods and c.module.name.endswith(".state"):
+                    target = c.methods[last]
+                    break
+        if target is None or depth > 2:
+            return None
+        body_calls = [c for c in ast.walk(target.node) if isinstance(c, ast.Call)]
+        if any((dotted(c.func) or "").split(".")[-1] in ("normalize", "_normalize") or any(k.arg == "normalization" for k in c.keywords) for c in body_calls):
+            return True
+        for c in body_calls:
+            r = normalising(target, c, depth + 1)
+            if r:
+                return True
+        return False
+
+    from ..registry import get_registry
+    reg = get_registry(idx)
+    none_steps = set()
+    for sim in reg.simulators:
+        for e in sim.entries:
+            if e.instr is not None and e.step is not None and any(e.instr.is_subclass_of(c) for c in sim.allowed_shots_none):
+                none_steps.add(e.step.qualname)
+
+    def not_none_only(fn_node: ast.AST):
+        """Statement lists that run only when shots is not None."""
+        for node in ast.walk(fn_node):
+            body = getattr(node, "body", None)
+            if not isinstance(body, list):
+                continue
+            for i, st_ in enumerate(body):
+                if not isinstance(st_, ast.If):
+                    continue
+                pol = _shots_none_polarity(st_.test)
+                if pol is False:
+                    yield st_.body
+                elif pol is True:
+                    if st_.orelse:
+                        yield st_.orelse
+                    elif st_.body and isinstance(st_.body[-1], (ast.Return, ast.Raise)):
+                        yield body[i + 1:]
+
+    for fn in idx.all_functions():
+        if not fn.module.name.startswith("piquasso.") or "shots" not in fn.all_params():
+            continue
+        arms = list(_none_arms(fn.node))
+        if not arms and fn.qualname not in none_steps:
+            continue
+        excluded = {id(x) for arm in not_none_only(fn.node) for s_ in arm for x in ast.walk(s_)}
+        scope = [fn.node.body] if fn.qualname in none_steps else arms
+        for arm in scope:
+            for s in arm:
+                for b in ast.walk(s):
+                    if id(b) in excluded:
+                        continue
+                    if not (isinstance(b, ast.Call) and (dotted(b.func) or "").split(".")[-1] == "Branch"):
+                        continue
+                    st = next((k.value for k in b.keywords if k.arg == "state"), b.args[0] if b.args else None)
+                    has_outcome = any(k.arg in ("outcome", "frequency") for k in b.keywords) or len(b.args) >= 2
+                    if st is None or not has_outcome or (isinstance(st, ast.Constant) and st.value is None):
+                        continue
+                    src = st
+                    if isinstance(st, ast.Name):
+                        defs = [a.value for a in ast.walk(fn.node) if isinstance(a, ast.Assign) and len(a.targets) == 1
+                                and isinstance(a.targets[0], ast.Name) and a.targets[0].id == st.id]
+                        if len(defs) == 1:
+                            src = defs[0]
+                    if not isinstance(src, ast.Call):
+                        continue
+                    n += 1
+                    verdict = normalising(fn, src)
+                    key = f"{fn.qualname}|post-measurement state|{norm(src)[:60]}"
+                    if verdict is None:
+                        raise AnalysisError(f"C03d: cannot resolve the constructor of the branch state `{norm(src)[:60]}` in {fn.qualname} (undecided)")
+                    ctx.obligation("C03d", key, verdict, f"{ctx.relpath(fn.file)}:{b.lineno}")
+                    if not verdict:
+                        ctx.violation("C03d", key, fn.file, b.lineno,
+                                      f"with shots=None {fn.name} hands on the branch state `{norm(src)[:60]}`, which is not normalised (no normalization "
+                                      f"argument, no normalize() on the way): the weights the next measurement reads from it already contain this "
+                                      f"branch's probability, and the simulator multiplies them by the branch weight again - measuring modes one after "
+                                      f"another no longer gives the joint distribution", norm(b)[:140])
+    ctx.require_floor("C03d post-measurement states handed on by steps reachable with shots=None", n, 3)
